@@ -86,11 +86,14 @@ func c12(c *Ctx) {
 	r.Rule("C12.compress-announce", "the boolean that makes Upgrade append the permessage-deflate extension line is the one that installs the compression functions, and it is true only under Upgrader.EnableCompression and an offer whose extension token is permessage-deflate")
 	r.Rule("C12.no-split", "every operand appended to the 101 response is a constant, the accept key, a response-header name, or a single byte known to be >= 32 (control-byte scrubbing); nothing derived from responseHeader values or from the request reaches the response unscrubbed")
 	r.Rule("C12.status-line", "the response starts with 'HTTP/1.1 101 ', contains 'Upgrade: websocket' and 'Connection: Upgrade' lines, every constant line ends with CRLF and the buffer is terminated by an empty line before the single Write")
+	r.Rule("C12.origin-default", "the origin policy applied when Upgrader.CheckOrigin is nil accepts only an absent Origin or a host equal to the request's Host under ASCII-only case folding (same rules as C13.same-origin and C13.ascii-only)")
 	r.Rule("C12.pre-hijack", "never hijack after a failed validation; returnError returns (nil, HandshakeError)")
 	r.Assume("net/http canonicalises request header names (Header.Get / map keys in canonical MIME form)")
 	r.Table("response header NAMES (map keys of responseHeader) are application-chosen identifiers outside the statement's 'header values'; appended unscrubbed (one table entry)")
 
 	u.chain()
+	c13sameOrigin(c, u, "C12.origin-default")
+	c13fold(c, "C12.origin-default")
 	c16prehijack(c, "C12.pre-hijack")
 	u.acceptKey()
 	u.subprotocol()
@@ -98,6 +101,8 @@ func c12(c *Ctx) {
 	u.noSplit()
 	r.Rule("C12.token-list", "tokenListContainsValue: every token is scanned after skipSpace, the comma test is made after skipSpace, and true is returned only when equalASCIIFold(scanned token, wanted value) held (necessary conditions for 'case-insensitively, anywhere in comma-separated lists with optional whitespace'; the full grammar is not decided)")
 	u.tokenListOWS("C12.token-list")
+	r.Rule("C12.quoted-pairs", "nextTokenOrQuoted (extension parameter values): the byte following a backslash recognised inside a quoted string is never inspected (necessary condition for quoted text not being parsed as further extension offers)")
+	quotedPairs(c, "C12.quoted-pairs")
 	u.runFull("C12.full")
 }
 
